@@ -10,7 +10,9 @@ import (
 	"math/rand"
 	"os"
 	"path/filepath"
+	"regexp"
 	"sort"
+	"strconv"
 	"strings"
 	"sync"
 	"sync/atomic"
@@ -324,6 +326,7 @@ type Sess struct {
 	rng   *rand.Rand
 	Log   []string // every request sent, for failure details
 	Only0 bool     // send every request to node 0 (key translation is the coordinator's job; C24 covers replicas)
+	shards map[uint64]bool // shards written so far (clusters: see WaitShards)
 	ctx   context.Context
 }
 
@@ -433,6 +436,17 @@ func (s *Sess) Query(pql string) ([]interface{}, error) {
 	if err != nil {
 		return nil, err
 	}
+	if s.Nd.N > 1 && strings.Contains(pql, "Set(") {
+		var cols []uint64
+		for _, m := range setColRE.FindAllStringSubmatch(pql, -1) {
+			c, _ := strconv.ParseUint(m[1], 10, 64)
+			cols = append(cols, c)
+		}
+		s.NoteCols(cols...)
+		if len(cols) == 0 {
+			s.SettleShards()
+		}
+	}
 	return resp.Results, nil
 }
 
@@ -458,6 +472,76 @@ func (s *Sess) owners(shard uint64) ([]*pilosa.API, error) {
 	}
 	return out, nil
 }
+
+// NoteCols records the shards of written columns; on a cluster it then waits until every
+// node knows every written shard. A node learns of a shard created on another node by an
+// asynchronous broadcast; a query it coordinates before that skips the shard. That window
+// is cluster membership propagation (C17/C20-C23), not query semantics, and it makes
+// failures irreproducible, so the replay waits it out.
+func (s *Sess) NoteCols(cols ...uint64) {
+	if s.shards == nil {
+		s.shards = map[uint64]bool{}
+	}
+	fresh := false
+	for _, c := range cols {
+		if !s.shards[c/SW] {
+			s.shards[c/SW] = true
+			fresh = true
+		}
+	}
+	if !fresh || s.Nd.N == 1 {
+		return
+	}
+	deadline := time.Now().Add(3 * time.Second)
+	for {
+		ok := true
+		for _, cmd := range s.Nd.C {
+			bm := cmd.API.AvailableShardsByIndex(s.ctx)[s.Index]
+			for sh := range s.shards {
+				if bm == nil || !bm.Contains(sh) {
+					ok = false
+				}
+			}
+		}
+		if ok || time.Now().After(deadline) {
+			return
+		}
+		time.Sleep(5 * time.Millisecond)
+	}
+}
+
+// SettleShards waits until all nodes of a cluster report the same available shards (used
+// where the written columns are not known to the harness: column keys).
+func (s *Sess) SettleShards() {
+	if s.Nd.N == 1 {
+		return
+	}
+	deadline := time.Now().Add(3 * time.Second)
+	same := 0
+	for same < 2 && time.Now().Before(deadline) {
+		var first []uint64
+		eq := true
+		for i, cmd := range s.Nd.C {
+			var cur []uint64
+			if bm := cmd.API.AvailableShardsByIndex(s.ctx)[s.Index]; bm != nil {
+				cur = bm.Slice()
+			}
+			if i == 0 {
+				first = cur
+			} else if !equalU64(first, cur) {
+				eq = false
+			}
+		}
+		if eq {
+			same++
+		} else {
+			same = 0
+		}
+		time.Sleep(4 * time.Millisecond)
+	}
+}
+
+var setColRE = regexp.MustCompile(`Set\((\d+),`)
 
 // Bit is one concrete bit of an import.
 type Bit struct {
@@ -502,6 +586,7 @@ func (s *Sess) ImportIDs(field string, bits []Bit, clear bool) error {
 				return err
 			}
 		}
+		s.NoteCols(sh * SW)
 	}
 	return nil
 }
